@@ -240,13 +240,16 @@ def run(ctx):
         mo = dep.arg_origins(dm, ent[0][0], 0)
         if not dep.has_field(mo, "SocketAPI", "socket_sessions"):
             probs.append("the lookup is not on socket_sessions")
-        idl = [l for l, (tix, name, _u) in enumerate(dm.locals) if name == "identifier"]
-        if not idl:
-            probs.append("identifier not found")
-        else:
-            pl = F.op_place(F.call_args(ent[0][1])[1])
-            if pl is None or dep.tree_str(dep.expr_tree(dm, F.call_args(ent[0][1])[1], 6)) != "identifier":
-                probs.append("the session is looked up under something other than the full (local, remote) endpoints")
+        # the key is the datagram's own Endpoints value as taken from the control block (whatever the local is called):
+        # it originates from Control::get::<Endpoints>() and no field is picked out of it or replaced
+        ko2 = dep.arg_origins(dm, ent[0][0], 1, through_calls=False)
+        from_control = dep.has_call(ko2, "control::{impl#0}::get") or dep.has_call(dep.arg_origins(dm, ent[0][0], 1, through_calls=True), "control::{impl#0}::get")
+        kty = dm.local_tystr(F.op_place(F.call_args(ent[0][1])[1])[0]) if F.op_place(F.call_args(ent[0][1])[1]) is not None else ""
+        PASS = {"get", "deref", "unwrap", "expect", "copied", "cloned", "clone", "branch", "from_residual", "ok_or", "as_ref", "borrow", "into"}
+        rebuilt = any(a[0] == "agg" and str(a[1]).endswith("Endpoints") for a in ko2) or any(a[0] == "const" for a in ko2) or \
+            any(a[0] == "call" and a[1] and a[1].rsplit("::", 1)[-1] not in PASS for a in ko2)
+        if not from_control or not kty.endswith("utility::Endpoints") or rebuilt:
+            probs.append("the session is looked up under something other than the full (local, remote) endpoints of the datagram")
         gets = [(bb, t) for bb, t in K.calls(dm) if (F.callee_key(t) or "").startswith("dashmap::") and (F.callee_key(t) or "").endswith("::get") and dep.has_field(dep.arg_origins(dm, bb, 0), "SocketAPI", "listen_bindings")]
         sw = None
         for s in range(len(dm.blocks)):
